@@ -10,6 +10,7 @@ pub mod c09;
 pub mod c10;
 pub mod c11;
 pub mod c14;
+pub mod conc;
 pub mod crash;
 
 pub fn dispatch(a: &Args) -> i32 {
@@ -20,6 +21,7 @@ pub fn dispatch(a: &Args) -> i32 {
         "C01" => c01::run(a),
         "C02" => c02::run(a),
         "C03" => c03::run(a),
+        "C04" | "C05" | "C17" => conc::run(a, &a.prop),
         "C06" => c06::run(a),
         "C07" => c07::run(a),
         "C08" => c08::run(a),
